@@ -120,7 +120,7 @@ pub fn c08_case(cfg: &Cfg, rep: &mut Report, case_seed: u64) {
     }
     let r = g.render(&mut rng, true);
     rep.evaluations += 1;
-    let replay = json!({"property": "c08", "case_seed": case_seed.to_string(), "text": if r.text.len() < 3000 { r.text.clone() } else { format!("{}...", &r.text[..3000]) }});
+    let replay = json!({"property": "c08", "case_seed": case_seed.to_string(), "text": if r.text.len() < 3000 { r.text.clone() } else { format!("{}...", r.text.chars().take(3000).collect::<String>()) }});
     // the independent recogniser must agree that this is in the language
     let rec = match grammar::recognise(&r.text) {
         Ok(p) => p,
@@ -286,6 +286,7 @@ fn c08_negatives(rep: &mut Report, g: &GenAdf, text: &str, rng: &mut Rng, case_s
     mutants.push(("empty", String::new(), false));
     for (class, t, unbalanced) in mutants {
         rep.count("negatives_generated", 1);
+        rep.evaluations += 1;
         let rec_rejects = grammar::recognise(&t).is_err();
         if unbalanced && grammar::brackets_balanced_outside_quotes(&t) {
             rep.inconclusive.push(format!("mutant {} should be unbalanced: {:?}", class, t));
